@@ -85,5 +85,6 @@ def slog2(x, f=PF, p=PP):
 def ssqrt(x, f=PF, p=PP):
     return F(isqrt(tofix(F(x), 2 * p)), 1 << p)
 def stanh(x, f=PF, p=PP):
+    x = max(F(-20), min(F(20), F(x)))
     e2 = exp_fix(F(x) * 2, f)
     return outgrid(((e2 - (1 << f)) << f) // (e2 + (1 << f)), f, p)
